@@ -41,11 +41,11 @@ def check(ctx):
     except Lost as e:
         ctx.undecided.append('lexer/trim reason=lost anchor: %s' % e)
     # bounded API-level round trips
-    docs = [d.encode() for d in corpus.OWN_VALID + corpus.OWN_DEFECT + corpus.SORT_DOCS] + [d for _, d in corpus.fixtures(ctx.scratch.dir)]
+    docs = [d.encode() for d in corpus.OWN_VALID + corpus.OWN_DEFECT + corpus.SORT_DOCS + corpus.COMMENT_DOCS] + [d for _, d in corpus.fixtures(ctx.scratch.dir)]
     p = ctx.scratch.path('c01_corpus.txt')
     with open(p, 'w') as f:
         f.write('\n'.join(d.hex() for d in docs) + '\n')
-    _api(ctx, 'native/api-roundtrip-corpus', ['api', 'roundtrip', p], '%d documents (own valid + defect documents, nested documents, the repository\'s parser fixtures), each loaded strict and lenient' % len(docs),
+    _api(ctx, 'native/api-roundtrip-corpus', ['api', 'roundtrip', p], '%d documents (own valid + defect documents, nested documents, documents with comments, the repository\'s parser fixtures), each loaded strict and lenient' % len(docs),
          'load -> serialize -> load (same mode) -> serialize: byte-identical text, same version, element count, identifiable paths, element order, attributes, character data and comments', 'roundtrip1')
     ndocs = '1000000' if thorough else '30000'
     _api(ctx, 'native/api-roundtrip-generated', ['api', 'roundtripgen', ndocs], 'documents generated from the specification (one per version-dependent sub-element / attribute / value, budget %s candidates), built through the public API' % ndocs,
